@@ -1,5 +1,5 @@
 use super::*;
-use crate::ast_util::{purge_trivia, range};
+use crate::ast_util::{numeric_literal_value, range};
 use std::convert::Infallible;
 
 use full_moon::{
@@ -114,9 +114,9 @@ impl Visitor for UDim2CountVisitor {
                     call_range: range(call),
                     args_provided,
                     args_are_between_0_and_1: arguments.iter().all(|argument| {
-                        match purge_trivia(argument).to_string().parse::<f32>() {
-                            Ok(number) => (0.0..=1.0).contains(&number),
-                            Err(_) => false,
+                        match numeric_literal_value(argument) {
+                            Some(number) => (0.0..=1.0).contains(&number),
+                            None => false,
                         }
                     }),
                     args_are_numbers: numbers_passed == args_provided,
